@@ -10,9 +10,16 @@ import (
 // vstore is the injected fiber.Storage of harness A. Expiry is decided against the
 // harness-owned virtual clock `now` (never the wall clock), every call is counted per
 // operation, and at most one call (index failAt inside the current operation) fails.
+//
+// The store KEEPS THE KEY STRINGS IT IS GIVEN (as fiber's own internal/storage/memory and any
+// map-based fiber.Storage do; on an update the key string of the entry is replaced by the one just
+// given, which is what a Go map does as well). A middleware that hands over a string aliasing the
+// request buffers (c.Cookies, c.Get, ...) therefore corrupts the entry as soon as the RequestCtx
+// serves another request. Entries live in a slice that is searched by comparing key bytes: no
+// hashing, so the behaviour of a corrupted entry is deterministic.
 type vstore struct {
 	now    time.Duration
-	m      map[string]vent
+	ents   []vent
 	calls  int      // calls inside the current operation
 	log    []string // names of the calls inside the current operation
 	failAt int      // -1: no injected failure in the current operation
@@ -20,13 +27,25 @@ type vstore struct {
 }
 
 type vent struct {
+	key string // exactly the string handed to Set (never cloned)
 	val []byte
 	exp time.Duration // absolute virtual time; 0 = never
 }
 
 var errInjected = errors.New("injected storage failure")
 
-func newVstore() *vstore { return &vstore{m: map[string]vent{}, failAt: -1} }
+func newVstore() *vstore { return &vstore{failAt: -1} }
+
+func (s *vstore) find(key string) int {
+	for i := range s.ents {
+		if s.ents[i].key == key {
+			return i
+		}
+	}
+	return -1
+}
+
+func (s *vstore) remove(i int) { s.ents = append(s.ents[:i], s.ents[i+1:]...) }
 
 func (s *vstore) beginOp(failAt int) {
 	s.calls, s.failAt, s.failed = 0, failAt, ""
@@ -48,15 +67,15 @@ func (s *vstore) Get(key string) ([]byte, error) {
 	if s.hit("Get") {
 		return nil, errInjected
 	}
-	e, ok := s.m[key]
-	if !ok {
+	i := s.find(key)
+	if i < 0 {
 		return nil, nil
 	}
-	if e.exp != 0 && e.exp <= s.now {
-		delete(s.m, key)
+	if e := s.ents[i]; e.exp != 0 && e.exp <= s.now {
+		s.remove(i)
 		return nil, nil
 	}
-	return append([]byte(nil), e.val...), nil
+	return append([]byte(nil), s.ents[i].val...), nil
 }
 
 func (s *vstore) Set(key string, val []byte, exp time.Duration) error {
@@ -66,14 +85,16 @@ func (s *vstore) Set(key string, val []byte, exp time.Duration) error {
 	if key == "" || len(val) == 0 {
 		return nil
 	}
-	// The middleware hands over strings that alias the request buffer (c.Cookies, c.Get); a
-	// storage must not retain them, so the key is cloned (values are copied as well).
-	key = strings.Clone(key)
-	e := vent{val: append([]byte(nil), val...)}
+	// the key string is kept as given (see the type comment); the value is copied
+	e := vent{key: key, val: append([]byte(nil), val...)}
 	if exp > 0 {
 		e.exp = s.now + exp
 	}
-	s.m[key] = e
+	if i := s.find(key); i >= 0 {
+		s.ents[i] = e
+	} else {
+		s.ents = append(s.ents, e)
+	}
 	return nil
 }
 
@@ -81,22 +102,26 @@ func (s *vstore) Delete(key string) error {
 	if s.hit("Delete") {
 		return errInjected
 	}
-	delete(s.m, key)
+	if i := s.find(key); i >= 0 {
+		s.remove(i)
+	}
 	return nil
 }
 
-func (s *vstore) Reset() error { s.m = map[string]vent{}; return nil }
+func (s *vstore) Reset() error { s.ents = nil; return nil }
 func (s *vstore) Close() error { return nil }
 
-// liveKeys returns the unexpired keys in sorted order (harness inspection, not counted).
-func (s *vstore) liveKeys() []string {
-	ks := make([]string, 0, len(s.m))
-	for k, e := range s.m {
+// live returns copies of the unexpired entries sorted by the CURRENT bytes of their keys (harness
+// inspection, not counted; the keys are cloned here because they may alias request buffers).
+func (s *vstore) live() []vent {
+	var out []vent
+	for _, e := range s.ents {
 		if e.exp != 0 && e.exp <= s.now {
 			continue
 		}
-		ks = append(ks, k)
+		e.key = strings.Clone(e.key)
+		out = append(out, e)
 	}
-	sort.Strings(ks)
-	return ks
+	sort.SliceStable(out, func(i, j int) bool { return out[i].key < out[j].key })
+	return out
 }
